@@ -145,13 +145,16 @@ class World:
         self.holds = self.plan.get('holds') or spec.get('holds') or []
         self.layers_module = spec.get('layers_module')
         self.is_child = '--resume-layer' in sys.argv[1:2]
+        self.child_layer = sys.argv[2] if self.is_child and \
+            len(sys.argv) > 2 else None
 
     # -- crash / barrier points ------------------------------------------
     def point(self, name):
         """Called at every observable point; may hold or crash here."""
         for h in self.holds:
             if h.get('point') == name and \
-                    (not h.get('child_only') or self.is_child):
+                    (not h.get('child_only') or self.is_child) and \
+                    (not h.get('layer') or h['layer'] == self.child_layer):
                 do_hold(h)
         c = self.crash
         if c and c.get('at') == name and \
